@@ -85,7 +85,21 @@ func vErrClass(err error) string {
 }
 
 // position-coded payload: byte at stream position p
-func vStreamByte(p int) byte { return byte((p*131 + (p>>8)*7 + 17) & 0xff) }
+// (every 7th byte is the line delimiter, everything else is a position hash that is never '\n')
+func vStreamByte(p int) byte {
+	if p%7 == 6 {
+		return '\n'
+	}
+	x := uint32(p)*2654435761 + 40503
+	x ^= x >> 15
+	x *= 2246822519
+	x ^= x >> 13
+	b := byte(x >> 8)
+	if b == '\n' {
+		b = 0x0B
+	}
+	return b
+}
 
 type vConnRun struct {
 	sc      *vScenario
@@ -101,6 +115,7 @@ type vConnRun struct {
 	reqN    int
 	panicked string
 	userClosed bool
+	inUntil    bool
 	mu       sync.Mutex
 }
 
@@ -141,6 +156,31 @@ func (r *vConnRun) consume(n int, timed bool) error {
 		ok = r.inLen()
 	}
 	r.ev("Ret", "Next", n, ok, vErrClass(err))
+	if err == nil {
+		r.c.Reader().Release()
+	}
+	return err
+}
+
+// until reads one line; ok means: exactly the bytes up to and including the next delimiter of the stream
+func (r *vConnRun) until() error {
+	r.inUntil = true
+	r.ev("Call", "Until", 0, r.inLen(), "")
+	p, err := r.c.Reader().Until('\n')
+	r.inUntil = false
+	ok := 1
+	want := 7 - r.rdpos%7
+	if err == nil && len(p) != want {
+		ok = 0
+	}
+	for i := range p {
+		if p[i] != vStreamByte(r.rdpos+i) {
+			ok = 0
+			break
+		}
+	}
+	r.rdpos += len(p)
+	r.ev("Ret", "Until", len(p), ok, vErrClass(err))
 	if err == nil {
 		r.c.Reader().Release()
 	}
@@ -294,6 +334,9 @@ func (r *vConnRun) runActor(a vActorSpec) {
 		case "NextT":
 			r.c.SetReadTimeout(time.Hour) // fired by the scheduler only
 			r.consume(arg, true)
+		case "Until":
+			r.c.SetReadTimeout(0)
+			r.until()
 		case "Write":
 			r.c.SetWriteTimeout(0)
 			r.write(arg)
@@ -531,6 +574,15 @@ func vRunConnScenario(sc *vScenario) (out []vOutEvent, info map[string]interface
 			switch a.gate.pt {
 			case vpWaitRead, vpWaitReadT:
 				kind, need = "read", int(a.gate.a)
+				if r.inUntil && a.name == "reader" {
+					// a line reader waits for more input: legitimate only if no delimiter is buffered
+					kind, need = "until", 0
+					for _, b := range vReadable(c.inputBuffer) {
+						if b == '\n' {
+							need = 1
+						}
+					}
+				}
 			case vpWaitWrite, vpWaitWriteT:
 				kind, need = "write", r.outLen()
 			case vpStopSpin, vpOpInuseSpin, vpOpUnusedSpin:
